@@ -388,9 +388,89 @@ func (x *Exec) callPackage(s *State, in *ssa.Call, callee *ssa.Function, args []
 		x.reassumeCaptures(s)
 		return false
 	}
+	if fc.Pure && callee.Signature.Results().Len() == 1 {
+		var ts []T
+		sig := "("
+		ok := true
+		for i, a := range args {
+			if a.K != vScalar {
+				ok = false
+				break
+			}
+			if i > 0 {
+				sig += " "
+			}
+			sig += string(a.T.Sort)
+			ts = append(ts, a.T)
+		}
+		if ok {
+			rs := x.sortOf(callee.Signature.Results().At(0).Type())
+			fn := "pure!" + sanitize(name)
+			x.declFun(s, fn, sig+") "+string(rs))
+			x.assumed["pure function (deterministic, no side effects): "+name] = true
+			fr.env[in] = scalar(mk(rs, fn, ts...))
+			return false
+		}
+	}
+	x.recursionCheck(s, in, fc, callee, args)
+	if fc.MayPanic && len(fr.defers) > 0 {
+		x.mayPanicFork(s, name, fr.k)
+	}
 	fr.env[in] = x.applyContract(s, in, fc, callee, args, nil, callee.Signature)
 	x.reassumeCaptures(s)
 	return false
+}
+
+// recursionCheck: on a call between two functions that carry a recursion measure, the callee's
+// measure (a lexicographic tuple of non-negative integers) is smaller than the caller's at entry.
+// Bounded components make this a bound on the depth of the call stack.
+func (x *Exec) recursionCheck(s *State, in *ssa.Call, fc *FuncContract, callee *ssa.Function, args []Val) {
+	me := x.fnc
+	if me == nil || len(s.frames) != 1 || len(me.clauses("rdecreases")) == 0 || len(fc.clauses("rdecreases")) == 0 {
+		return
+	}
+	mine := x.measureOf(s, me, nil, nil, true)
+	env := &specEnv{x: x, s: s, where: "decreases " + fc.Key, vars: map[string]sval{}}
+	for i, p := range callee.Params {
+		env.vars[p.Name()] = sval{v: args[i], typ: p.Type()}
+	}
+	theirs := x.measureOf(s, fc, env, nil, false)
+	if mine == nil || theirs == nil || len(mine) != len(theirs) {
+		x.unsupported("recursion measures of %s / %s do not line up", me.Key, fc.Key)
+		return
+	}
+	z := x.ilit(0)
+	var lex T = TFalse
+	for i := len(mine) - 1; i >= 0; i-- {
+		lex = Or(x.lt(theirs[i], mine[i]), And(Eq(theirs[i], mine[i]), lex))
+	}
+	var nonneg []T
+	for i := range mine {
+		nonneg = append(nonneg, x.le(z, theirs[i]), x.le(z, mine[i]))
+	}
+	x.oblige(s, "decreases", "call:"+x.label(in), And(append(nonneg, lex)...), in.Pos(), []string{"C06"})
+}
+
+func (x *Exec) measureOf(s *State, fc *FuncContract, env *specEnv, _ []Val, atEntry bool) []T {
+	cls := fc.clauses("rdecreases")
+	if len(cls) == 0 {
+		return nil
+	}
+	var out []T
+	for _, part := range splitTopLevel(cls[0].Expr, ',') {
+		e := env
+		if e == nil {
+			e = x.specEnvFor(s, "decreases")
+			e.old = atEntry
+		}
+		t, err := e.evalInt(strings.TrimSpace(part))
+		if err != nil {
+			x.unsupported("decreases of %s: %v", fc.Key, err)
+			return nil
+		}
+		out = append(out, t)
+	}
+	return out
 }
 
 // preCall: objects allocated by this function that the callee can reach (passed as argument or
@@ -567,6 +647,13 @@ func (x *Exec) applyContract(s *State, in *ssa.Call, fc *FuncContract, callee *s
 		s.assume(t)
 	}
 	x.callFrameCheck(s, in, fc, env)
+	if x.fnc != nil && x.fnc.Theory {
+		// the ghost state must exist before the call so that what the call preserves can be said
+		x.heapSym(s, "ghost:k", SArray(SInt, SInt))
+		x.heapSym(s, "ghost:epoch", SArray(SInt, SInt))
+		x.heapSym(s, "ghost:ctxp", SArray(SInt, SPos))
+		x.heapSym(s, "navpos", SArray(SInt, SPos))
+	}
 	// snapshot for old()
 	pre := make(map[string]T, len(s.heap))
 	for k, v := range s.heap {
